@@ -1621,9 +1621,11 @@ def C18(c):
     for _ in range(c.n(10, 80)):
         n = rng.randint(11, c.n(12, 16))
         k = rng.randint(2, c.n(3, 5))
+        if n >= 14:
+            k = min(k, 3)       # the exact algorithms take minutes per call beyond this
         vals = [rng.randint(1, 60) for _ in range(n)]
         for o in rng.sample(C.OBJS3, c.n(1, 3)):
-            algs = ["cg", "dp", "ilp"] + (["ckk", "snp", "rnp"] if o == "diff" and k <= 4 else [])
+            algs = ["cg", "dp", "ilp"] + (["ckk", "snp", "rnp"] if o == "diff" and k <= 4 and n <= 13 else [])
             if k >= 4 and n >= 14:
                 algs = [a for a in algs if a not in ("dp",)]
             grp = []
@@ -1646,6 +1648,9 @@ def C18(c):
             c.evaluations += 1
             c.stats["agreement"]["calls"] += 1
             label = dict(g["p"], vals=g["vals"], alg=g["alg"], objective=o)
+            if J._is_err(got) and got["error"] == "Timeout":
+                c.stats["agreement"]["call-timeouts (not judged)"] += 1
+                continue
             if J._is_err(got) or J._is_none(got):
                 c.check_direct(g["alg"], label, "exception:" + str(got.get("error", "none")), False, got, "a partition")
                 continue
@@ -1769,15 +1774,40 @@ FINISH = {"C15": {"explanation": "Purity is definitional for the Lean model (a t
 
 
 def replay(c, rp):
-    """re-run the single case of a replay file against the current tree and re-judge it"""
-    case = rp.get("case")
-    if not case:
-        print("replay file names a broken obligation, not an input:", json.dumps(rp.get("theorems"))[:400])
+    """re-run what a replay file describes against the current tree:
+    * a broken obligation: print it (the proof audit of this run decides whether it still is broken);
+    * a case of a registered algorithm: run that single call on the implementation and on the model, judge it with the
+      verified checker of its kind, and report;
+    * anything else (direct calls, operation sequences, histories): re-run the whole suite with the seed and tier recorded in
+      the file - the suites are deterministic functions of (seed, tier), so the same failure reappears if it still exists."""
+    kind = rp.get("kind_of_replay")
+    if kind == "broken-obligation":
+        print("replay file names a broken obligation, not an input:", json.dumps(rp.get("theorems"))[:600])
         return
-    fmt, ot = rp.get("fmt", "list"), rp.get("outtype", PT)
-    if fmt not in FORMATS:
-        fmt = "list"
-    REPLAY_JUDGES.get(c.pid, lambda c_, cs, cb: c_.corr("replay", cs, cb))(c, [case], combos_of([fmt], [ot]))
+    case = rp.get("case") or {}
+    if case.get("alg") in ALGS and "vals" in case and set(ALGS[case["alg"]].param) <= set("kB") and ALGS[case["alg"]].param in case.get("p", {}):
+        fmt, ot = rp.get("fmt", "list"), rp.get("outtype", PT)
+        fmt = fmt if fmt in FORMATS else "list"
+        ot = ot if ot in OUTTYPES else PT
+        kind_ = ALGS[case["alg"]].kind
+
+        def judge(cs, f, o, got, names, ans):
+            print(f"replay: {cs['alg']} {json.dumps(cs['p'], default=str)} vals={cs['vals']} fmt={f} out={o}\n  implementation: {json.dumps(got, default=str)[:400]}\n  model:          {json.dumps(ans, default=str)[:400]}")
+            if kind_ == "partition":
+                res = J.judge_partition(cs, f, o, got, names, ans, allow_fewer=(cs["alg"] == "multifit"), allow_none=cs["p"].get("cut") is not None)
+                if c.pid in ("C02", "C12", "C18") and cs["alg"] not in C.HEURISTIC_PART:
+                    res += J.judge_optimal(lambda q: q["p"].get("obj", "diff"))(cs, f, o, got, names, ans)
+                return res
+            if kind_ == "pack":
+                return J.judge_packing(cs, f, o, got, names, ans, drop_zeros=(cs["alg"] == "bin_completion"))
+            return J.judge_cover(cs, f, o, got, names, ans)
+        c.corr("replay", [{"alg": case["alg"], "vals": case["vals"], "p": {k_: v for k_, v in case["p"].items() if k_ not in ("vals", "alg")}}], combos_of([fmt], [ot]), judge=judge)
+        return
+    print(f"replay: re-running the whole {c.pid} suite with the recorded seed {rp.get('seed')} and tier {rp.get('tier')}")
+    c.seed = rp.get("seed", c.seed)
+    c.tier = rp.get("tier", c.tier)
+    c.rng = random.Random(f"{c.pid}-{c.seed}")
+    SUITES[c.pid](c)
 
 
 REPLAY_JUDGES = {}
